@@ -185,6 +185,12 @@ impl SElem for Option<i32> {
     fn sc(&self) -> i64 { match self { None => MISSING, Some(v) => *v as i64 } }
 }
 
+impl SElem for Option<noisy_float::types::N64> {
+    const NAME: &'static str = "opt_n64";
+    fn mk(v: i64) -> Self { if v == MISSING { None } else { Some(n64(v as f64 / 4.0)) } }
+    fn sc(&self) -> i64 { match self { None => MISSING, Some(v) => (v.raw() * 1024.0).round() as i64 } }
+}
+
 fn qskip<T: SElem>(case: &Value, out: &mut Vec<Value>)
 where T::NotNan: Clone + Ord + num_traits::NumOps + num_traits::FromPrimitive + num_traits::ToPrimitive, {
     let lay = Lay::from_json(&case["lay"]);
@@ -276,6 +282,7 @@ pub fn run(case: &Value, params: &Params, out: &mut Vec<Value>) {
         "qskip" => match jstr(case, "ty", "f64") {
             "f64" => qskip::<f64>(case, out),
             "opt_i32" => qskip::<Option<i32>>(case, out),
+            "opt_n64" => qskip::<Option<noisy_float::types::N64>>(case, out),
             t => panic!("qskip type {t}"),
         },
         _ => panic!("unknown minmax event {ev}"),
@@ -312,7 +319,7 @@ pub fn gen(seed: u64, count: usize, tier: &str, params: &Params) -> Vec<Value> {
                 let lay = random_lay(&mut rng, &shape, fancy);
                 let n: usize = shape.iter().product();
                 let dens = rng.below(4);
-                let ty = *rng.pick(&["f64", "opt_i32"]);
+                let ty = *rng.pick(&["f64", "opt_i32", "opt_n64"]);
                 let strat = *rng.pick(crate::fam_quant::STRATS);
                 // infinities (f64, selecting strategies only: interpolating with an infinity is not a number)
                 let infs = ty == "f64" && matches!(strat, "lower" | "higher" | "nearest") && rng.chance(1, 3);
